@@ -31,6 +31,11 @@ def run(ctx):
     r6(ctx, prog)
     from . import C01
     C01.r6(_Only(ctx, "R6", "R7"), prog)
+    # keys are scoped by contract: the duplicate set used while computing mutations is fresh for every solution, so
+    # whether a computed key is accepted cannot depend on which solutions were processed before (C16 R4)
+    from . import C16
+    ctx.rule("R8", "computed-mutation duplicate detection does not carry keys from one solution to the next (C16 R4)")
+    C16.run(_Only(ctx, "R4", "R8"))
     f = prog.fn("essential_hash::solution_set_addr::from_set")
     if ctx.anchor("R2", "fn from_set", f):
         ctx.saw(f)
